@@ -80,8 +80,21 @@ class Gen:
                 self.tag("int_format")
             elif x < 0.6 and self.has("int_bounds"):
                 lo = self.pick([0, 1, -5, -128, 0, 10])
-                hi = lo + self.pick([1, 5, 100, 255, 1000, 70000])
-                s["minimum"], s["maximum"] = lo, hi
+                hi = lo + self.pick([1, 5, 100, 255, 256, 1000, 65535, 70000])
+                y = r.random()
+                if y < 0.5:
+                    s["minimum"], s["maximum"] = lo, hi
+                elif y < 0.65:                       # exclusive forms of the same range
+                    s["exclusiveMinimum"], s["exclusiveMaximum"] = lo - 1, hi + 1
+                elif y < 0.8:                        # inclusive bound binding, exclusive bound slack
+                    s["minimum"], s["exclusiveMinimum"] = lo, lo - self.pick([1, 2, 7])
+                    s["maximum"] = hi
+                elif y < 0.9:
+                    s["minimum"] = lo
+                    s["maximum"], s["exclusiveMaximum"] = hi, hi + self.pick([1, 3, 744])
+                else:                                # exclusive bound binding
+                    s["minimum"], s["exclusiveMinimum"] = lo - 3, lo - 1
+                    s["maximum"], s["exclusiveMaximum"] = hi + 9, hi + 1
                 self.tag("int_bounds")
             else:
                 self.tag("int")
@@ -106,6 +119,16 @@ class Gen:
         else:
             self.tag("string")
         return s
+
+    def length_keywords(self, a):
+        """minItems / maxItems on a variable-length array (never equal: that is the fixed-array form)"""
+        x = self.rnd.random()
+        if x < 0.2:
+            a["minItems"] = self.pick([1, 2])
+        elif x < 0.3:
+            a["maxItems"] = self.pick([2, 3, 5])
+        elif x < 0.4:
+            a["minItems"], a["maxItems"] = 1, self.pick([2, 4])
 
     def scalar_nonnull(self):
         s = self.scalar()
@@ -210,10 +233,14 @@ class Gen:
             return {"type": "object", "additionalProperties": self.leafish(names, depth)}
         if k == "array":
             self.tag("array")
-            return {"type": "array", "items": self.leafish(names, depth)}
+            a = {"type": "array", "items": self.leafish(names, depth)}
+            self.length_keywords(a)
+            return a
         if k == "set":
             self.tag("set")
-            return {"type": "array", "items": self.pick([{"type": "string"}, {"type": "integer"}]), "uniqueItems": True}
+            a = {"type": "array", "items": self.pick([{"type": "string"}, {"type": "integer"}]), "uniqueItems": True}
+            self.length_keywords(a)
+            return a
         if k == "tuple":
             self.tag("tuple")
             n = r.randrange(2, 4)
@@ -331,8 +358,7 @@ def _closed_payload(s):
     """An inline object used as the payload of a tagged variant becomes a struct VARIANT and falls under
     the enum's container-level deny_unknown_fields: in the random stream its closedness follows the
     (closed) branches; the mixed case is finding C02-F1 and lives in the curated corpus."""
-    if isinstance(s, dict) and s.get("type") == "object" and "properties" in s and \
-            not isinstance(s.get("additionalProperties"), dict):
+    if isinstance(s, dict) and s.get("type") == "object" and "properties" in s:
         s = dict(s)
         s["additionalProperties"] = False
     return s
@@ -446,6 +472,10 @@ class Inst:
             lo, hi = INT_FORMATS[s["format"]]
         lo = max(lo, s.get("minimum", lo))
         hi = min(hi, s.get("maximum", hi))
+        if "exclusiveMinimum" in s:
+            lo = max(lo, s["exclusiveMinimum"] + 1)
+        if "exclusiveMaximum" in s:
+            hi = min(hi, s["exclusiveMaximum"] - 1)
         c = [lo, hi, lo + (hi - lo) // 2, max(lo, min(hi, 0)), max(lo, min(hi, 1))]
         return self.pick(c)
 
@@ -696,7 +726,11 @@ def boundary_variants(seed, doc, schema, inst):
                 lo, hi = INT_FORMATS[s["format"]]
             lo = max(lo, s.get("minimum", lo))
             hi = min(hi, s.get("maximum", hi))
-            if "format" in s or "minimum" in s or "maximum" in s:
+            if "exclusiveMinimum" in s:
+                lo = max(lo, s["exclusiveMinimum"] + 1)
+            if "exclusiveMaximum" in s:
+                hi = min(hi, s["exclusiveMaximum"] - 1)
+            if "format" in s or "minimum" in s or "maximum" in s or "exclusiveMinimum" in s or "exclusiveMaximum" in s:
                 out.append(set_path(inst, path, lo))
                 out.append(set_path(inst, path, hi))
     return out
